@@ -76,9 +76,13 @@ def dropExt (cs : List Char) : List Char := ((cs.reverse.dropWhile (· != '.')).
 /-- `os.path.splitext(file_name)[0]` (after F14; a listed name holds no path separator): the name up to its last `.`,
 provided some character other than `.` precedes that dot - leading dots never start an extension - else the whole name -/
 def stem (name : String) : String :=
-  let lead := name.toList.takeWhile (· == '.')
-  let rest := name.toList.dropWhile (· == '.')
-  if rest.contains '.' then String.ofList (lead ++ dropExt rest) else name
+  if PlaybackModel.Source.fileStemSplitext then           -- as it stands in the source
+    let lead := name.toList.takeWhile (· == '.')
+    let rest := name.toList.dropWhile (· == '.')
+    if rest.contains '.' then String.ofList (lead ++ dropExt rest) else name
+  else
+    -- `file_name.split('.')[0]` (before F14)
+    String.ofList (name.toList.takeWhile (· != '.'))
 
 /-- `get_recording(recording_id)`: the file at the path of that id, or `NoSuchRecording` -/
 def readFile (dir : List (String × Rec)) (id : String) : Except LErr Rec :=
